@@ -212,6 +212,9 @@ def run(tier):
         for target in TARGETS:
             for kind in ("open-EACCES", "EISDIR", "open-SIGKILL"):
                 jobs.append((cli, drv, target, kind, "edit-then-revert", "zod" if len(jobs) % 2 else "none", "build", sd + len(jobs)))
+            # ... and whether the build script's entry point reports the failure at all (first run / run after an edit)
+            for k, kind in enumerate(("EISDIR", "write-ENOSPC", "dangling-symlink", "file-in-its-place", "ENOTDIR")):
+                jobs.append((cli, drv, target, kind, PHASES[(k + len(target)) % 2], "none" if len(jobs) % 2 else "zod", "build", sd + len(jobs)))
     res = common.pmap(scenario, jobs, chunksize=2)
     hit = requested = 0
     exits = {}
